@@ -658,6 +658,15 @@ def resume_programs():
     return out
 
 
+# ---- (d) a generator whose resumption itself fails (the interpreter refuses to enter one more frame at the recursion limit) is finished:
+# the value that was being sent must not stay behind in its frame
+LIMIT_PROG = 'def g():\n    for i in range(5):\n        x = yield i\n        LOG.append(x is not None)\nLOG = []\ndef probe(n):\n    try:\n        return probe(n + 1)\n    except RuntimeError:\n        return n\ndef deep(n, it, mode):\n    if n == 0:\n        try:\n            if mode == "next":\n                return ("ok", next(it))\n            return ("ok", it.send(iter([100, 200, 300])))\n        except RuntimeError:\n            return ("RE",)\n    return deep(n - 1, it, mode)\nL = probe(0)\nfor mode in ("next", "send"):\n    found = False\n    for n in range(L - 60, L + 10):\n        it = g()\n        next(it)\n        try:\n            r = deep(n, it, mode)\n        except RuntimeError:\n            r = ("too-deep",)\n        if r == ("RE",):\n            found = True\n            del LOG[:]\n            rest = []\n            try:\n                for k in range(6):\n                    rest.append(next(it))\n            except StopIteration:\n                rest.append("stop")\n            print(mode, "resumption failed at the limit; afterwards:", rest, LOG)\n            break\n    print(mode, "found", found)\n'
+LIMIT_VARIANTS = {'for-loop-holds-iterator': LIMIT_PROG,
+                  'while-loop': LIMIT_PROG.replace('    for i in range(5):\n        x = yield i\n        LOG.append(x is not None)\n', '    i = 0\n    while i < 5:\n        x = yield i\n        LOG.append(x is not None)\n        i += 1\n'),
+                  'try-finally': LIMIT_PROG.replace('    for i in range(5):\n        x = yield i\n        LOG.append(x is not None)\n', '    try:\n        for i in range(5):\n            x = yield i\n            LOG.append(x is not None)\n    finally:\n        LOG.append("gen-finally")\n'),
+                  'yield-from': LIMIT_PROG.replace('def g():\n', 'def inner():\n    for j in range(5):\n        y = yield j\n        LOG.append(("inner", y is not None))\ndef g():\n    yield from inner()\n')}
+
+
 CANARY = [
     'print("v", 1)\nprint("X", "ok")\n',
     'def g():\n    yield 1\n    yield 2\nit = g()\nprint(next(it))\nprint(next(it))\nprint(next(it, 7))\n',
@@ -822,6 +831,22 @@ def run(tier, rep):
                            'got': {k_: short(g.get(k_), 2000) for k_ in ('out', 'exc', 'excmsg', 'cerr', 'panic', 'stack') if g.get(k_)}, 'first_divergent_line': k})
     stats['c_resume_programs'] = len(rp)
     stats['c_wrappers'] = len(RESUME_WRAPPERS)
+
+    # ---------------- (d) resumption refused at the recursion limit ----------------
+    lp = [{'id': 'limit-' + k, 'src': v} for k, v in LIMIT_VARIANTS.items()]
+    lexp = oracle_exec(lp)
+    lgot, _ = run_vrun('exec', lp, timeout_case=120)
+    for c in lp:
+        e, g = lexp.get(c['id']) or {}, lgot.get(c['id'])
+        if g is None or g.get('timeout') or e.get('oracle_failed') or e.get('exc') or 'found True' not in (e.get('out') or ''):
+            rep.inconc('d: no result / reference run did not reach the limit: %s' % c['id'])
+            continue
+        rep.evaluations += 1
+        nontriv.add(('d', c['id']))
+        if g.get('panic') or g.get('crash') or g.get('exc') or g.get('out') != e.get('out'):
+            rep.violation('C05|d|resumption-refused-at-recursion-limit|%s|%s' % (c['id'][6:], 'panic' if g.get('panic') or g.get('crash') else ('escaped:%s' % g['exc'] if g.get('exc') else 'state-afterwards')),
+                          {'case': c, 'expected': e.get('out'), 'got': {k_: short(g.get(k_), 1500) for k_ in ('out', 'exc', 'excmsg', 'panic', 'stack') if g.get(k_)}})
+    stats['d_limit_programs'] = len(lp)
 
     # ---------------- (b) ----------------
     ngen = 2 if quick else 3
